@@ -19,10 +19,8 @@ int main(void)
 {
 	unsigned i, n = sizeof(l1sched_lchan_desc) / sizeof(l1sched_lchan_desc[0]);
 	printf("{\"consts\": {\"L1SCHED_CHAN_MAX\": %d, \"TRX_TS_COUNT\": %d, \"L1SCHED_CH_FLAG_AUTO\": %d, "
-	       "\"L1SCHED_PROBE_F_ACTIVE\": %d, \"PERIOD_BITS\": %d, \"LCHAN_MASK_BITS\": %d},\n \"desc\": [",
-	       (int) _L1SCHED_CHAN_MAX, (int) TRX_TS_COUNT, (int) L1SCHED_CH_FLAG_AUTO, (int) L1SCHED_PROBE_F_ACTIVE,
-	       (int) (8 * sizeof(((struct l1sched_tdma_multiframe *) 0)->period)),
-	       (int) (8 * sizeof(((struct l1sched_tdma_multiframe *) 0)->lchan_mask)));
+	       "\"L1SCHED_PROBE_F_ACTIVE\": %d},\n \"desc\": [",
+	       (int) _L1SCHED_CHAN_MAX, (int) TRX_TS_COUNT, (int) L1SCHED_CH_FLAG_AUTO, (int) L1SCHED_PROBE_F_ACTIVE);
 	for (i = 0; i < n; i++) {
 		const struct l1sched_lchan_desc *d = &l1sched_lchan_desc[i];
 		printf("%s\n  {\"rx\": %d, \"tx\": %d, \"flags\": %u, \"chan_nr\": %u, \"link_id\": %u}", i ? "," : "",
